@@ -27,6 +27,16 @@ Record ast_args := mkArgs {
 
 Record funcdef := mkDef { fd_args : ast_args; fd_returns : option expr; fd_overload : bool; fd_async : bool }.
 
+(*  is_overload_func = False
+    for d in node.decorator_list:
+        ...
+        if parent.expandName('.'.join(deco_name)) in ('typing.overload', 'typing_extensions.overload'):
+            is_overload_func = True
+    decos: for each decorator, outermost first, whether it resolves to typing.overload.  The flag is only
+    ever SET in the loop: any position counts (the typing docs put @overload above @staticmethod/@classmethod). *)
+Definition is_overload_func (decos : list bool) : bool :=
+  fold_left (fun (acc d : bool) => if d then true else acc) decos false.
+
 (* exceptions other than the ValueError that _handleFunctionDef catches: they would abort the build *)
 Inductive exn := AssertionError (index : Z) | IndexError | KwAssertionError.
 Inductive outcome (A : Type) := Ok (a : A) | Raise (e : exn).
@@ -327,7 +337,7 @@ Definition displayed_defs (name : text) (f : function) : list (list piece) :=
    expr   := (0) | (1 sid [parse]) | (2 v s) | (3 text) | (4 v text) | (5 tag kid ...) | (6 e ...)     [x] = () or (x)
    arg    := (text [expr])
    args   := (posonly args [vararg] kwonly kw_defaults [kwarg] defaults)       kw_defaults: list of [expr]
-   def    := (args [returns] overload async)
+   def    := (args [returns] decos async)      decos: one 0/1 per decorator (is it typing.overload), outermost first
    param  := (text kind [default] [annot])
    input  := (0 def)            -> (status params [ret] pieces reports)   status 0 ok / 1 assert / 2 index / 3 kwassert
              (1 expr)           -> (reported expr)
@@ -374,7 +384,8 @@ Definition to_args (s : sexp) : ast_args :=
          (map (to_option to_expr) (to_list (nth_s 4 s))) (to_option to_arg (nth_s 5 s))
          (map to_expr (to_list (nth_s 6 s))).
 Definition to_def (s : sexp) : funcdef :=
-  mkDef (to_args (nth_s 0 s)) (to_option to_expr (nth_s 1 s)) (to_bool (nth_s 2 s)) (to_bool (nth_s 3 s)).
+  mkDef (to_args (nth_s 0 s)) (to_option to_expr (nth_s 1 s))
+        (is_overload_func (map to_bool (to_list (nth_s 2 s)))) (to_bool (nth_s 3 s)).
 
 Definition kind_of_Z (z : Z) : kind :=
   match z with
